@@ -228,6 +228,46 @@ fn long_line(rng: &mut Rng) -> Vec<u8> {
     .into_bytes()
 }
 
+/// Two pieces whose lines RELATE to each other across the split point: whatever the
+/// iterator remembers from the lines of A (a class name, a qualifier, a member name, a
+/// range) must not change what the lines of B parse to.
+fn related_pair(rng: &mut Rng) -> (Vec<u8>, Vec<u8>) {
+    let q = *rng.pick(&["a.b", "org.lib.Tool", "com.example.Main", "x", "p.q$r"]);
+    let m = *rng.pick(&["close", "run", "<init>", "a"]);
+    let first = match rng.below(6) {
+        0 => format!("    1:1:void {q}.{m}():7:7 -> {m}"),
+        1 => format!("{q} -> z.y:"),
+        2 => format!("    void {q}.{m}(int) -> o"),
+        3 => format!("{q} -> {q}:"),
+        4 => format!("    1:3:void {m}():10:12 -> o"),
+        _ => format!("    1:1:void {q}.{m}():7:7 -> "), // truncated: an error that mentions the qualifier
+    };
+    let second = match rng.below(9) {
+        0 => format!("    2:2:void {q}.c.{m}():9:9 -> p"),          // qualifier extends the earlier one by a segment
+        1 => format!("    2:2:void {q}$c.{m}():9:9 -> p"),
+        2 => format!("    2:2:void {q}.{m}():9:9 -> p"),            // the same qualifier and name again
+        3 => format!("    void {q}x.{m}() -> p"),                   // a string prefix, not a dotted one
+        4 => format!("    int {m} -> p"),                            // a field named like the method
+        5 => format!("{q}.c -> z.y:"),
+        6 => format!("    4:6:void {m}():13:15 -> o"),               // continues the earlier range
+        7 => format!("    void {}() -> {m}", q.rsplit('.').next().unwrap_or(q)),
+        _ => format!("# {{\"id\":\"sourceFile\",\"fileName\":\"{}.kt\"}}", q.rsplit('.').next().unwrap_or(q)),
+    };
+    let mut a = first.into_bytes();
+    if rng.chance(1, 3) {
+        let mut pre = hostile_piece(rng);
+        pre.push(b'\n');
+        pre.extend_from_slice(&a);
+        a = pre;
+    }
+    let mut b = second.into_bytes();
+    if rng.chance(1, 3) {
+        b.push(b'\n');
+        b.extend_from_slice(&hostile_piece(rng));
+    }
+    (a, b)
+}
+
 fn hostile_piece(rng: &mut Rng) -> Vec<u8> {
     if rng.chance(1, 300) {
         return long_line(rng);
@@ -487,8 +527,12 @@ pub fn run(ctx: &Ctx, rep: &mut Reporter) {
                 panic_violation(rep, case_idx, "panic", &p, Json::obj());
             }
         }
-        let a = hostile_piece(&mut rng);
-        let b = hostile_piece(&mut rng);
+        let (a, b) = if rng.chance(1, 8) {
+            rep.count("pairs_whose_lines_relate_across_the_split_point", 1);
+            related_pair(&mut rng)
+        } else {
+            (hostile_piece(&mut rng), hostile_piece(&mut rng))
+        };
         let sep: &[u8] = *rng.pick(&[b"\n".as_slice(), b"\r\n", b"\r"]);
         let r = guarded(|| {
             law(&a, sep, &b, rep, case_idx);
